@@ -204,11 +204,11 @@ theorem safe_anyStage (W : World V) (stage : Nat) (ts : List Ty) (v : V) : Safe 
   | nil => exact safe_pure _
   | cons t ts ih => unfold anyStage; safe_auto
 
-theorem safe_xorLoop (W : World V) (o : Opts) (ts : List Ty) : ∀ v x, Safe (xorLoop W o ts v x) := by
+theorem safe_xorLoop (W : World V) (o : Opts) (v : V) (ts : List Ty) : ∀ r x, Safe (xorLoop W o v ts r x) := by
   induction ts with
-  | nil => intro v x; exact safe_pure _
+  | nil => intro r x; exact safe_pure _
   | cons t ts ih =>
-    intro v x
+    intro r x
     unfold xorLoop
     safe_auto
     all_goals exact ih _ _
@@ -223,7 +223,7 @@ theorem C04_logical_no_escape (W : World V) (o : Opts) (c : Comb) (args : List T
     Safe (logicalParse W Legacy.none o c args v) := by
   have h1 := safe_allLoop W Legacy.none rfl o args
   have h2 := fun k => safe_anyStage W k args v
-  have h3 := safe_xorLoop W o args
+  have h3 := safe_xorLoop W o v args
   have h4 := safe_notLoop W o args v
   unfold logicalParse
   cases c <;> (dsimp only; safe_auto)
@@ -233,7 +233,7 @@ theorem C04_logical_no_escape_partial (W : World V) (L : Legacy) (hL : L.allOfRa
     (c : Comb) (args : List Ty) (v : V) : Safe (logicalParse W L o c args v) := by
   have h1 := safe_allLoop W L hL o args
   have h2 := fun k => safe_anyStage W k args v
-  have h3 := safe_xorLoop W o args
+  have h3 := safe_xorLoop W o v args
   have h4 := safe_notLoop W o args v
   unfold logicalParse
   cases c <;> (dsimp only; safe_auto)
@@ -419,12 +419,13 @@ theorem safe_posArgs (W : DataWorld V) (L : Legacy) (hL : L.discLookup = false) 
     safe_auto
     all_goals first | exact ih _ _ _ | exact hpv _ _ | exact hpt _ _
 
-theorem safe_posOnlyMissing (o : Opts) (fs : List (FieldDecl V)) :
-    ∀ args keys, Safe (posOnlyMissing o fs args keys) := by
+theorem safe_posOnlyMissing (o : Opts) (F : FuncDecl V) (fs : List (Nat × FieldDecl V)) :
+    ∀ args keys, Safe (posOnlyMissing o F fs args keys) := by
   induction fs with
   | nil => intro args keys; exact safe_pure _
   | cons f fs ih =>
     intro args keys
+    obtain ⟨index, f⟩ := f
     unfold posOnlyMissing
     safe_auto
     all_goals exact ih _ _
@@ -432,7 +433,7 @@ theorem safe_posOnlyMissing (o : Opts) (fs : List (FieldDecl V)) :
 theorem safe_parseParams (W : DataWorld V) (L : Legacy) (hL : L.dataFixed = true) (o : Opts)
     (F : FuncDecl V) (args : List V) (kw : List (Nat × V)) : Safe (parseParams W L o F args kw) := by
   have h1 := safe_posArgs W L (by simp [Legacy.dataFixed] at hL; exact hL.2) o F args
-  have h2 := safe_posOnlyMissing o F.posOnly
+  have h2 := safe_posOnlyMissing o F F.posOnly
   have h3 := fun ex => safe_parseData W L hL o F.parser ex kw
   unfold parseParams
   safe_auto
@@ -668,12 +669,12 @@ theorem term_anyStage (W : World V) (hW : W.Terminates) (stage : Nat) (ts : List
     term_auto
     all_goals term_close hW
 
-theorem term_xorLoop (W : World V) (hW : W.Terminates) (o : Opts) (ts : List Ty) :
-    ∀ v x, Term (xorLoop W o ts v x) := by
+theorem term_xorLoop (W : World V) (hW : W.Terminates) (o : Opts) (v : V) (ts : List Ty) :
+    ∀ r x, Term (xorLoop W o v ts r x) := by
   induction ts with
-  | nil => intro v x; exact term_pure _
+  | nil => intro r x; exact term_pure _
   | cons t ts ih =>
-    intro v x
+    intro r x
     unfold xorLoop
     term_auto
     all_goals first | exact ih _ _ | term_close hW
@@ -692,7 +693,7 @@ theorem C04_logical_terminates (W : World V) (hW : W.Terminates) (L : Legacy) (o
     (args : List Ty) (v : V) : Term (logicalParse W L o c args v) := by
   have h1 := term_allLoop W hW L o args
   have h2 := fun k => term_anyStage W hW k args v
-  have h3 := term_xorLoop W hW o args
+  have h3 := term_xorLoop W hW o v args
   have h4 := term_notLoop W hW o args v
   unfold logicalParse
   cases c <;> (dsimp only; term_auto)
@@ -822,12 +823,13 @@ theorem term_posArgs (W : DataWorld V) (hW : W.Terminates) (L : Legacy) (o : Opt
     term_auto
     all_goals first | exact ih _ _ _ | exact hpv _ _ | dterm_close hW
 
-theorem term_posOnlyMissing (o : Opts) (fs : List (FieldDecl V)) :
-    ∀ args keys, Term (posOnlyMissing o fs args keys) := by
+theorem term_posOnlyMissing (o : Opts) (F : FuncDecl V) (fs : List (Nat × FieldDecl V)) :
+    ∀ args keys, Term (posOnlyMissing o F fs args keys) := by
   induction fs with
   | nil => intro args keys; exact term_pure _
   | cons f fs ih =>
     intro args keys
+    obtain ⟨index, f⟩ := f
     unfold posOnlyMissing
     term_auto
     all_goals exact ih _ _
@@ -837,7 +839,7 @@ theorem C04_call_terminates (W : DataWorld V) (hW : W.Terminates) (L : Legacy) (
     (body : List V → List (Nat × V) → M V) (hbody : ∀ a k, Term (body a k)) (args : List V)
     (kw : List (Nat × V)) : Term (syncCall W L o F body args kw) := by
   have h1 := term_posArgs W hW L o F args
-  have h2 := term_posOnlyMissing o F.posOnly
+  have h2 := term_posOnlyMissing o F F.posOnly
   have h3 := fun ex => term_parseData W hW L o F.parser ex kw
   unfold syncCall parseParams parseResult
   term_auto
